@@ -4,6 +4,7 @@ model scan (fn 20)."""
 from __future__ import annotations
 
 import os
+import random
 import re
 import shutil
 
@@ -53,7 +54,7 @@ def dotted(t):
     return ".".join(t)
 
 
-BLOCK_KINDS = ["def", "class", "if", "if_else", "try", "for_else", "while_else", "with", "async_def"]
+BLOCK_KINDS = ["def", "class", "if", "if_else", "try", "for_else", "while_else", "with", "async_def", "type_checking", "try_import_error", "method"]
 # one-line spellings: the import does not start a physical line ("if x: import a", "x = 1; import a", ...)
 INLINE_KINDS = ["if_inline", "def_inline", "class_inline", "for_inline", "while_inline", "with_inline", "semi"]
 
@@ -95,7 +96,7 @@ def gen_import_stmt(rng, f, mods, externals=()):
     return ("from", lvl, dotted(rest[:-1]), [rest[-1]])
 
 
-def gen_imports(rng, dirs, files, externals=(), nested=True, per_file=4):
+def gen_imports(rng, dirs, files, externals=(), nested=True, per_file=4, styled=True):
     mods = list(dirs) + [f for f, v in files.items() if v["py"]]
     for f, v in files.items():
         if not v["py"]:
@@ -111,37 +112,81 @@ def gen_imports(rng, dirs, files, externals=(), nested=True, per_file=4):
                 s = ("block", rng.choice(BLOCK_KINDS), [s] + ([("other",)] if rng.random() < 0.3 else []))
             body.append(s)
         v["body"] = body
+        if styled and rng.random() < 0.3:
+            v["style"] = rng.randrange(1 << 30)      # a semantics-preserving spelling of the file's text (see render_file)
 
 
 # --------------------------------------------------------------------------
 # rendering to Python source
 
 
-def render_stmt(s, ind=0):
-    pad = "    " * ind
+class Style:
+    """Semantics-preserving spellings of a source file, drawn from one seed: aliases ('import a.b as c'), parenthesised
+    multi-line and backslash-continued imports, comments and string literals that contain import statements, tabs,
+    trailing blanks, blank lines, CRLF line ends, a UTF-8 byte order mark, no final newline."""
+
+    def __init__(self, seed):
+        r = random.Random(seed)
+        self.r = r
+        self.alias = r.random() < 0.5
+        self.paren = r.random() < 0.4
+        self.cont = r.random() < 0.3
+        self.comments = r.random() < 0.5
+        self.strings = r.random() < 0.5
+        self.tabs = r.random() < 0.25
+        self.trailing = r.random() < 0.3
+        self.blank = r.random() < 0.4
+        self.crlf = r.random() < 0.3
+        self.bom = r.random() < 0.2
+        self.no_final_newline = r.random() < 0.2
+        self.k = 0
+
+    def fresh(self):
+        self.k += 1
+        return f"_al{self.k}"
+
+
+def render_import(s, pad, st):
+    """the import statement itself, possibly spelt over several physical lines"""
+    r = st.r if st else None
     if s[0] == "import":
-        return [pad + "import " + ", ".join(s[1])]
-    if s[0] == "from":
-        _, lvl, mod, names = s
-        return [pad + f"from {'.' * lvl}{mod or ''} import {', '.join(names)}"]
+        names = [n + (" as " + st.fresh() if st and st.alias and r.random() < 0.5 else "") for n in s[1]]
+        if st and st.cont and r.random() < 0.5:
+            return [pad + "import \\", pad + "    " + ", ".join(names)]
+        return [pad + "import " + ", ".join(names)]
+    _, lvl, mod, names = s
+    src = f"{'.' * lvl}{mod or ''}"
+    if names != ["*"]:
+        names = [n + (" as " + st.fresh() if st and st.alias and r.random() < 0.5 else "") for n in names]
+        if st and st.paren and r.random() < 0.6:
+            return [pad + f"from {src} import ("] + [pad + "    " + n + ",  # import " + n for n in names] + [pad + ")"]
+    if st and st.cont and r.random() < 0.5:
+        return [pad + f"from {src} \\", pad + f"    import {', '.join(names)}"]
+    return [pad + f"from {src} import {', '.join(names)}"]
+
+
+def render_stmt(s, ind=0, st=None):
+    pad = "    " * ind
+    if s[0] in ("import", "from"):
+        return render_import(s, pad, st)
     if s[0] == "other":
         return [pad + "x = 1"]
     _, kind, children = s
     if kind in INLINE_KINDS:
-        one = render_stmt(children[0], 0)[0]
+        one = render_import(children[0], "", st) if children[0][0] in ("import", "from") else render_stmt(children[0], 0, st)
         head = {"if_inline": "if x: ", "def_inline": "def f(): ", "class_inline": "class K: ", "for_inline": "for i in range(3): ",
                 "while_inline": "while x: ", "with_inline": "with open('f') as fh: ", "semi": "x = 1; "}[kind]
-        return [pad + head + one]
+        return [pad + head + one[0]] + [pad + l for l in one[1:]]
     inner = []
     for c in children:
-        inner.extend(render_stmt(c, ind + 1))
+        inner.extend(render_stmt(c, ind + 1, st))
     if not inner:
         inner = [pad + "    pass"]
     filler = [pad + "    pass"]
     half = max(1, len(children) // 2)
     first, second = [], []
     for i, c in enumerate(children):
-        (first if i < half else second).extend(render_stmt(c, ind + 1))
+        (first if i < half else second).extend(render_stmt(c, ind + 1, st))
     first = first or filler
     second = second or filler
     if kind == "def":
@@ -150,8 +195,15 @@ def render_stmt(s, ind=0):
         return [pad + "async def g():"] + inner
     if kind == "class":
         return [pad + "class K:"] + inner
+    if kind == "method":
+        body = []
+        for c in children:
+            body.extend(render_stmt(c, ind + 2, st))
+        return [pad + "class K2:", pad + "    def m(self):"] + (body or [pad + "        pass"])
     if kind == "if":
         return [pad + "if x:"] + inner
+    if kind == "type_checking":
+        return [pad + "if TYPE_CHECKING:"] + inner
     if kind == "with":
         return [pad + "with open('f') as fh:"] + inner
     if kind == "if_else":
@@ -162,14 +214,48 @@ def render_stmt(s, ind=0):
         return [pad + "while x:"] + first + [pad + "else:"] + second
     if kind == "try":
         return [pad + "try:"] + first + [pad + "except ValueError:"] + second + [pad + "else:"] + filler + [pad + "finally:"] + filler
+    if kind == "try_import_error":
+        return [pad + "try:"] + first + [pad + "except ImportError:"] + second
     raise ValueError(kind)
 
 
-def render_file(body):
+FAKE_IMPORT_LINES = ["import notreal_zz.sub", "from notreal_zz import thing", "from . import notreal_yy", "import os, notreal_xx"]
+
+
+def render_file(body, style=None):
+    """Source text of a file; `style` (a seed) selects one of its semantics-preserving spellings."""
+    st = Style(style) if style is not None else None
     out = []
+    if st and st.strings:
+        out += ['"""module docs', st.r.choice(FAKE_IMPORT_LINES), '"""']
     for s in body:
-        out.extend(render_stmt(s))
-    return "\n".join(out) + "\n"
+        if st and st.comments and st.r.random() < 0.5:
+            out.append("# " + st.r.choice(FAKE_IMPORT_LINES))
+        if st and st.blank and st.r.random() < 0.4:
+            out.append("")
+        lines = render_stmt(s, 0, st)
+        if st and st.comments and st.r.random() < 0.4 and not lines[-1].rstrip().endswith("\\"):
+            lines[-1] += "  # " + st.r.choice(FAKE_IMPORT_LINES)
+        out.extend(lines)
+        if st and st.strings and st.r.random() < 0.3:
+            out.append("text = " + repr(st.r.choice(FAKE_IMPORT_LINES)))
+    if st and st.tabs:
+        # tabs for the block indentation (never inside brackets or after a backslash, where leading blanks are free anyway)
+        def tab(l):
+            n = len(l) - len(l.lstrip(" "))
+            return "\t" * (n // 4) + " " * (n % 4) + l.lstrip(" ")
+        out = [tab(l) for l in out]
+    if st and st.trailing:
+        out = [l + ("  " if (l and not l.endswith("\\") and st.r.random() < 0.5) else "") for l in out]
+    eol = "\r\n" if st and st.crlf else "\n"
+    text = eol.join(out) + ("" if st and st.no_final_newline and out else eol)
+    if st and st.bom:
+        text = "\ufeff" + text
+    return text
+
+
+def render_v(v):
+    return render_file(v["body"], v.get("style"))
 
 
 def materialise(dirs, files, sources=None):
@@ -179,8 +265,8 @@ def materialise(dirs, files, sources=None):
         os.makedirs(os.path.join(base, *p), exist_ok=True)
     for f, v in files.items():
         suffix = ".py" if v["py"] else ".txt"
-        with open(os.path.join(base, *f[:-1], f[-1] + suffix), "w") as fh:
-            fh.write(sources[f] if sources and f in sources else render_file(v["body"]))
+        with open(os.path.join(base, *f[:-1], f[-1] + suffix), "w", encoding="utf-8", newline="") as fh:
+            fh.write(sources[f] if sources and f in sources else render_v(v))
     return base
 
 
